@@ -6,7 +6,7 @@ Line protocol of the C47 driver (grammar: harness/ledger/store/trackerdb/testsui
 State: the spec `Store` plus the image saved at `begin` (a batch is atomic: `abort` restores it).
 Every answer is printed exactly as the harness prints one back end's answer.
 Command-line arguments = names of the generic-KV driver's deviations to emulate (Model.TrackerStoreKV and the
-"not implemented" answers): pfx odel otop oallround spnil nocp nocount norlim; and of the SQLite driver: histerr
+"not implemented" answers): pfx odel otop oallround spnil nocp nocount norlim olookwrap cdelany txsnap; and of the SQLite driver: histerr
 (LookupOnlineHistory fails for an address without rows).  No argument = the spec.
 -/
 namespace AlgoVerif.Driver.C47
@@ -71,7 +71,7 @@ def insSp (l : List (Nat × String)) : List String → Option (List (Nat × Stri
     | _ => none
 
 /-- a write inside a batch: (new store, answer) -/
-def write (qk : List String) (s : Store) : List String → Store × String
+def write (qk : List String) (snap : Store) (s : Store) : List String → Store × String
   | ["ains", a, tok] =>
     let a := addrOf a
     if has a s.accts then (s, "err:unique") else ({ s with accts := ins natLt a tok s.accts }, "ok")
@@ -101,7 +101,9 @@ def write (qk : List String) (s : Store) : List String → Store × String
     if has c s.creat then (s, "err:unique") else ({ s with creat := ins natLt c (nat! t, addrOf a) s.creat }, "ok")
   | ["cdel", c, t] =>
     let c := nat! c
-    match find c s.creat with
+    if qk.contains "cdelany" then ({ s with creat := del c s.creat }, "rows=1") else
+    -- (a Pebble transaction without read-your-writes decides on the snapshot taken at begin)
+    match find c (if qk.contains "txsnap" then snap.creat else s.creat) with
     | some (t', _) => if t' = nat! t then ({ s with creat := del c s.creat }, "rows=1") else (s, "rows=0")
     | none => (s, "rows=0")
   | ["kvput", k, v] => ({ s with kv := ins lexLt (unhex k) v s.kv }, "ok")
@@ -110,8 +112,9 @@ def write (qk : List String) (s : Store) : List String → Store × String
     let k : OKey := (addrOf a, nat! u)
     if has k s.online then (s, "err:unique") else ({ s with online := ins okLt k (onlOfTok tok) s.online }, "ok")
   | ["odel", r] =>
-    if qk.contains "odel" then ({ s with online := kvOnlineDelete (nat! r) s.online }, "ok")
-    else ({ s with online := onlineDelete (nat! r) s.online }, "ok")
+    let del : Online → Online := if qk.contains "odel" then kvOnlineDelete (nat! r) else onlineDelete (nat! r)
+    if qk.contains "txsnap" then ({ s with online := onlineDeleteVia del snap.online s.online }, "ok")
+    else ({ s with online := del s.online }, "ok")
   | ["rpput", start, toks] =>
     let ts := toks.splitOn ","
     match insSeq s.rparams (nat! start) ts with
@@ -232,7 +235,7 @@ def read (qk : List String) (s : Store) : List String → String
     | none => "err:other"
   | ["kvscan", p, lim, wv] => kvscan qk s (unhex p) (nat! lim) (wv = "1") 64 [] []
   | ["olook", a, q] =>
-    match lookupOnline (addrOf a) (nat! q) s.online with
+    match (if qk.contains "olookwrap" then kvLookupOnline (addrOf a) (nat! q) s.online else lookupOnline (addrOf a) (nat! q) s.online) with
     | some e => s!"rnd={s.round} ref=true upd={e.1.2} data={onlTok e.2}"
     | none => s!"rnd={s.round} ref=false upd=0 data=0.0.0.0"
   | ["ohist", a] =>
@@ -324,10 +327,12 @@ def step (st : St) (line : String) : St × String :=
     if ¬ st.live then (st, "bad-op no-reset")
     else if isWrite o then
       if st.saved.isNone then (st, "bad-op no-batch") else
-      let (s', out) := write st.quirks st.cur f
+      let (s', out) := write st.quirks (st.saved.getD st.cur) st.cur f
       ({ st with cur := s' }, out)
     else if o.startsWith "tx" then
-      if st.saved.isNone then (st, "bad-op no-batch") else (st, read st.quirks st.cur ((o.drop 2).toString :: rest))
+      match st.saved with
+      | none => (st, "bad-op no-batch")
+      | some snap => (st, read st.quirks (if st.quirks.contains "txsnap" then snap else st.cur) ((o.drop 2).toString :: rest))
     else if st.saved.isSome then (st, "bad-op in-batch")
     else (st, read st.quirks st.cur f)
   | [] => (st, "bad-op")
